@@ -1,15 +1,17 @@
-SPECIFICATION TSpec
+SPECIFICATION Spec
 CONSTANTS
   Vers = {"sasl", "sasl2"}
   Mechs = {"PLAIN", "DIGEST-MD5", "ANONYMOUS", "X-UNKNOWN"}
-  Creds = {"right", "wrongPw", "ownEmpty", "otherUser", "victimEmpty", "victimOwnSecret", "unknownPw", "unknownEmpty", "embedEmpty", "embedBareEmpty", "embedSlashEmpty", "embedKnown", "malformed", "empty"}
-  BindRes = {"ra", "rv"}
+  Creds = {"right", "wrongPw", "otherUser", "unknownEmpty", "embedKnown", "malformed", "empty"}
+  BindRes = {"ra"}
   Kinds = {"message", "presence", "iq"}
   Froms = {"absent", "own", "ownBare", "victim", "other", "ownOtherRes", "ownSibling", "ownCase", "ownSlash", "ownPrefix", "ownDomain", "ownLookalike"}
   Tos = {"victimBare", "victimFull", "domain", "absent"}
-  Stanzas <- AllStanzas
-  MaxPending = 99
-  MaxRetry = 0
+  Stanzas <- McStanzas
+  MaxPending = 2
+  MaxRetry = 2
   MaxHist = 99
-INVARIANT Done
+INVARIANTS TypeOK BindOnlyAuthed AuthedOnlyApproved ApprovedSound NeverTheVictim RoutesOwn
+PROPERTIES IdentityByApproval AnswersOnlyAuthed RoutedStamped
+VIEW View
 CHECK_DEADLOCK FALSE
